@@ -205,7 +205,8 @@ def run(ctx):
         tx = op["tx"]
         if tx.get("embedded"):
             if tx["embeddedDid"] != doc["idID"]:
-                report("accepted-creation-with-foreign-key", "creation accepted although the DID is not the thumbprint of the embedded key", i)
+                report("accepted-creation-with-foreign-key", "creation accepted although the DID's id-string is not EXACTLY the thumbprint of the embedded key "
+                       f"(DID id {doc['idID']!r}, key thumbprint {tx['embeddedDid']!r})", i)
             if verified and tx["embedded"] != tx["signer"]:
                 report("accepted-creation-not-signed-by-embedded-key", "creation accepted although another key signed", i)
         elif verified:
